@@ -38,16 +38,20 @@ ANCHORS = [
 ]
 MW_KINDS = ['P', 'S', 'Q', 'R', 'A']     # A = answers every request itself, notifications included
 # U = returns UNSET for every request, calls included (MiddlewareResponse allows it): nothing is sent for that element
-EXTRA_MW_KINDS = ['U']
+# E = refuses every call itself with an ERROR response that carries the request's id and a protocol-level code
+#     (-32600 / -32700 by stack index): an access / policy layer; the chain's response is sent as it is
+EXTRA_MW_KINDS = ['U', 'E']
+E_CODES = [-32600, -32700]
 TABLES = ['none', 'generic', 'per-code', 'both', 'two-per-key', 'replace-generic', 'replace-per-code', 'annotate', 'same-callable',
-          'codes-declared-before-generic']
+          'codes-declared-before-generic', 'translate-to-protocol-codes']
 FLOORS = {'*': {**{f'mw:{k}:depth{d}': 20 for k in MW_KINDS + EXTRA_MW_KINDS for d in range(3)},
                 **{f'table:{t}:failing': 20 for t in TABLES if t != 'none'},
                 **{f'table:{t}:batch': 5 for t in TABLES}, **{f'table:{t}:notification': 5 for t in TABLES},
                 'flavour:sync': 500, 'flavour:async': 500, 'flavour:async-suspending': 500, 'flavour:async-sequential': 500, 'flavour:async-awaitables': 500,
                 'flavour:flask-endpoint': 100, 'flavour:aiohttp-endpoint': 100, 'flavour:sync-own-response-class': 100,
                 'flavour:async-own-response-class': 100, 'flavour:async-dict-context': 100, 'flavour:sync-dict-context': 100, 'rejected-documents': 100,
-                'short-circuit': 300, 'handler-events': 500, 'middleware-returns-UNSET-for-a-call': 100}}
+                'short-circuit': 300, 'handler-events': 500, 'middleware-returns-UNSET-for-a-call': 100,
+                'middleware-answers-a-call-with-a-protocol-level-error': 100}}
 
 EVENTS = []
 
@@ -72,6 +76,9 @@ def make_mw(kind, idx, flavour):
     def short(request):
         if kind == 'U':
             return UNSET
+        if kind == 'E':
+            return UNSET if request.id is None else v20.Response(
+                id=request.id, error=JsonRpcError(code=E_CODES[idx % 2], message='refused by policy', data=['refused', idx]))
         if kind == 'A':
             return v20.Response(id=request.id, result=['answered', idx])       # "whatever the chain returns is what is sent"
         return UNSET if request.id is None else v20.Response(id=request.id, result=['short', idx])
@@ -84,7 +91,7 @@ def make_mw(kind, idx, flavour):
     if flavour == 'sync':
         def mw(request, context, handler):
             pre(request, context)
-            if kind in ('S', 'A', 'U'):
+            if kind in ('S', 'A', 'U', 'E'):
                 out = short(request)
             else:
                 out = rewrite_response(handler(rewrite_request(request), context))
@@ -103,7 +110,7 @@ def make_mw(kind, idx, flavour):
         pre(request, context)
         if suspend:
             await asyncio.sleep(0)
-        if kind in ('S', 'A', 'U'):
+        if kind in ('S', 'A', 'U', 'E'):
             out = short(request)
         else:
             out = rewrite_response(await handler(rewrite_request(request), context))
@@ -132,6 +139,8 @@ def make_handler(key, j, action, flavour):
             return error
         if action == 'replace':
             return JsonRpcError(code=5000 + (0 if key is None else 1) * 100 + j, message=f'replaced by {key}:{j}', data=error.code)
+        if action == 'to-protocol-code':
+            return JsonRpcError(code=E_CODES[(j or 0) % 2], message='translated', data=error.code)
         return JsonRpcError(code=error.code, message=error.message, data={'seen_by': [key, j]})
     if flavour == 'sync':
         return work
@@ -179,6 +188,9 @@ def table_spec(name):
     if name == 'codes-declared-before-generic':
         # the mapping lists the per-code entries first: the order of application is generic, then per-code, all the same
         return {**{c: ['annotate'] for c in RAISED_CODES}, None: ['annotate', 'identity']}
+    if name == 'translate-to-protocol-codes':
+        # handlers that translate application failures into -32600 / -32700 (for requests that DO have an id)
+        return {None: ['to-protocol-code'], **{c: ['identity', 'to-protocol-code'] for c in RAISED_CODES[:3]}}
     if name == 'same-callable':
         # one handler object listed generically and (twice) per code: every listed entry applies, in list order
         return {None: ['shared'], **{c: ['annotate', 'shared', 'shared'] for c in RAISED_CODES}}
@@ -192,6 +204,8 @@ def apply_action(action, key, j, err):
         return err
     if action == 'replace':
         return (5000 + (0 if key is None else 1) * 100 + j, f'replaced by {key}:{j}', code)
+    if action == 'to-protocol-code':
+        return (E_CODES[(j or 0) % 2], 'translated', code)
     return (code, message, {'seen_by': [key, j]})
 
 
@@ -233,7 +247,7 @@ def expected_element(el, stack, table, ctx_token):
     short_at = None
     for i, k in enumerate(stack):
         events.append(('enter', i, t))
-        if k in ('S', 'A', 'U'):
+        if k in ('S', 'A', 'U', 'E'):
             short_at = i
             break
         if k == 'Q' and cur['method'] == 'ok' and isinstance(cur.get('params'), list) and cur['params']:
@@ -241,6 +255,9 @@ def expected_element(el, stack, table, ctx_token):
     executions = []
     if short_at is not None and stack[short_at] == 'U':
         resp = None
+        depth = short_at
+    elif short_at is not None and stack[short_at] == 'E':
+        resp = None if is_notif else model.err(el['id'], E_CODES[short_at % 2], 'refused by policy', ['refused', short_at])
         depth = short_at
     elif short_at is not None and stack[short_at] == 'A':
         resp = {'jsonrpc': '2.0', 'id': el.get('id'), 'result': ['answered', short_at]}
@@ -374,6 +391,8 @@ def run_case(ctx, stack, table, doc_name, flavour):
             ctx.hit('short-circuit')
         if 'U' in stack:
             ctx.hit('middleware-returns-UNSET-for-a-call')
+        if 'E' in stack and el.get('id') is not None:
+            ctx.hit('middleware-answers-a-call-with-a-protocol-level-error')
     if any_failing:
         ctx.hit(f'table:{table}:failing')
     if isinstance(info.doc, list):
@@ -450,6 +469,7 @@ def gen(ctx):
         stacks += [list(s) for s in itertools.product(MW_KINDS, repeat=n)]
     # the UNSET-returning kind: alone, and next to pass-through / response-rewriting middlewares at every depth
     stacks += [['U']] + [list(s) for n in (2, 3) for s in itertools.product(['P', 'R', 'U'], repeat=n) if s.count('U') == 1]
+    stacks += [['E']] + [list(s) for n in (2, 3) for s in itertools.product(['P', 'R', 'E'], repeat=n) if s.count('E') == 1]
     k = 0
     names = list(DOCS)
     for stack in stacks:
